@@ -10,12 +10,15 @@ def run(chk):
     traces, meta, verdicts, cfg = graphcheck.run(chk, "C06", items)
     # binding self-test: corrupt an accepted result (cut a path to one node; re-own a path end) and require rejection
     ok = [traces[i] for i, v in verdicts.items() if v[1] == "ok" and traces[i]["paths"]]
-    t1 = copy.deepcopy(ok[0]); t1["paths"][0] = t1["paths"][0][:1]
-    t2 = copy.deepcopy(ok[0]); t2["paths"][0][-1]["owner"] = "<default>.not_a_target"
-    t3 = copy.deepcopy(ok[0]); t3["cedges"] = t3["cedges"][1:] if len(t3["paths"][0]) == 2 else []
-    v = core.validate_traces(chk, "Trace_Graph", cfg, [t1, t2, t3], "selftest")
-    chk.cov["traces_validated_against_impl"] -= 3
-    chk.self_test("corrupted results are rejected", all(x[1] != "ok" for x in v.values()), str([x[1] for x in v.values()]))
+    if ok:
+        t1 = copy.deepcopy(ok[0]); t1["paths"][0] = t1["paths"][0][:1]
+        t2 = copy.deepcopy(ok[0]); t2["paths"][0][-1]["owner"] = "<default>.not_a_target"
+        t3 = copy.deepcopy(ok[0]); t3["cedges"] = t3["cedges"][1:] if len(t3["paths"][0]) == 2 else []
+        v = core.validate_traces(chk, "Trace_Graph", cfg, [t1, t2, t3], "selftest")
+        chk.cov["traces_validated_against_impl"] -= 3
+        chk.self_test("corrupted results are rejected", all(x[1] != "ok" for x in v.values()), str([x[1] for x in v.values()]))
+    elif not chk.violations:
+        raise core.MachineryError("no accepted result to run the binding self-test on")
     chk.cov["rule"] = ("cases = results of the real LineageRunner on the harvested corpus (%d statements/scripts over 20 dialects, 99 TPC-DS "
                        "queries) and on scripts rendered from TLC-simulated histories of Script.tla; each projected (graph, paths, roles) and "
                        "evaluated clause by clause by TLC. non-trivial = the result has column nodes." % len(inputs.corpus_items()))
